@@ -28,6 +28,18 @@ C = {
  "C19": ("model_checking", "5.9,6/C19", "TLA+ spec Encoding.tla (Cp437Table data, UTF-8 decoder in TLA+; laws model-checked in MC_Encoding) + trace validation (Trace_Open.tla RDecode, Trace_Writer.tla)",
    "Exhaustive over 256 byte values x flag x position x {name, file comment} plus multi-byte valid/invalid UTF-8 and random strings: the trace spec itself computes the required decoded string (CP437 table taken from CPython's codec, UTF-8 by a decoder written in TLA+) and compares code points; the raw-name accessor must return the stored bytes; writer side through Trace_Writer (flag iff non-ASCII, same bytes, same string back).",
    "replacement decoding of invalid UTF-8 is taken from std (the documented behaviour); TLA+-decided strings are <= 512 bytes"),
+ "C04": ("model_checking", "5.5,6/C04", "TLA+ spec EntryRead.tla (pull pipeline; invariants and spec mutants model-checked with TLC) + trace validation of every read() call of the real readers (Trace_EntryRead.tla)",
+   "EofIntegrity/TamperDetected hold in the model for every damage class, crypto kind and schedule (the no_crc and zero_read_skips_crc spec mutants are detected). Binding: single-bit flips over data regions and central/local CRC fields, multi-byte damage, zeroed tails and swapped payloads of seed archives (stored/deflate/bzip2; plain/ZipCrypto/AE-1/AE-2) are read through the seekable and the streaming reader with schedules that include zero-length reads; any completed read whose CRC differs from the declared CRC (AE-2: from the original) is rejected, and stored entries must follow the model's pipeline step by step.",
+   "a damage that leaves decoded bytes and CRC intact legitimately succeeds; quick samples data-region bits, thorough enumerates them; CRC-32 collisions (2^-32) ignored"),
+ "C09": ("model_checking", "5.5,6/C09", "TLA+ spec EntryRead.tla (pull pipeline; invariants and spec mutants model-checked with TLC) + trace validation of every read() call of the real readers (Trace_EntryRead.tla) + Trace_Writer.tla for the writer side",
+   "All schedules of the model (buffers {0,1,2,5}, every short-read choice) satisfy CipherSync/Accounting/ZeroAndSticky; binding: caller buffer schedules x underlying short-read plans incl. ONE short read at every byte position of small archives, all methods, plain/ZipCrypto/AE-1/AE-2, seekable and streaming readers; each read() is validated (stored entries exactly against the pipeline model); writer: one short write at every byte position and capped writes give byte-identical archives, caller-side splits decode to the same entries.",
+   "codec crates trusted; long entries summarised (final state only)"),
+ "C15": ("model_checking", "5.4,5.5,6/C15", "TLA+ decision table ZipOpen!OpenDecision + EntryRead.tla, trace validation (Trace_Open.tla, Trace_EntryRead.tla, Trace_Writer.tla)",
+   "Exhaustive over the 256 check-byte values x {CRC-validated, time-validated} with entries from the independent builder: no password -> password-required, right -> original bytes, wrong failing the check byte -> invalid-password, wrong passing it -> must fail on read; Info-ZIP zip -P archives when installed; entries the crate encrypts are decrypted by an independent ZipCrypto (harness) and by CPython/unzip as referees, must differ from the plaintext, and read back.",
+   "the 32-bit key schedule is settled by agreement of independent implementations, not by the spec"),
+ "C16": ("model_checking", "5.5,6/C16", "TLA+ spec EntryRead.tla (pull pipeline; invariants and spec mutants model-checked with TLC) + trace validation of every read() call of the real readers (Trace_EntryRead.tla) + ZipOpen!OpenDecision (Trace_Open.tla)",
+   "MacAtEnd/TamperDetected/AE-1-vs-AE-2 CRC rule model-checked (no_mac/no_crc mutants found); binding: entries from the independent AES encryptor for every (AE version, strength, inner method, length in {0,1,15,16,17,33,1000}), open decisions for none/right/wrong passwords, reads under short-read schedules, every single-bit flip of salt/verifier/ciphertext/MAC of small entries and CRC-field flips.",
+   "empty entries exempt from the MAC claim as the property says; quick samples the flips"),
 }
 checks = []
 for pid in sorted(C):
